@@ -249,3 +249,100 @@ def checks(tier):
                assumptions=["POSIX semantics of O_EXCL, rename and unlink (the real kernel on /dev/shm)",
                             "other writers follow the lock protocol"], tiers=q),
     ]
+
+
+# ---------------------------------------------------------------------------------------------
+# (c) the callers: concurrent packed-refs rewriters.  An abandoned or refused rewrite leaves the old content; a
+#     completed one only changes the entries the operation names.
+_b07 = checks
+X, Y, KEEP = b"refs/tags/x", b"refs/tags/y", b"refs/heads/keep"
+SA, SB, SC, SD = b"1" * 40, b"2" * 40, b"3" * 40, b"4" * 40
+
+# (label, fn(container), names the operation is allowed to change in packed-refs)
+PR_OPS = [
+    ("remove_if_equals(x)", lambda c: c.remove_if_equals(X, None), {X}),
+    ("add_packed_refs({x: None})", lambda c: c.add_packed_refs({X: None}), {X}),
+    ("add_packed_refs({x: D})", lambda c: c.add_packed_refs({X: SD}), {X}),
+    ("pack_refs(all)", lambda c: c.pack_refs(all=True), set()),
+    ("remove_if_equals(y)", lambda c: c.remove_if_equals(Y, None), {Y}),
+    ("set_if_equals(x, None, D)", lambda c: c.set_if_equals(X, None, SD), {X}),
+    ("del refs[x]", lambda c: c.__delitem__(X), {X}),
+]
+
+
+def h_packed_rewriters(eng, opa=0, x_loose=False):
+    import dulwich.refs as R
+    from vf.interpose import Interposer, scratch
+    from vf.props.C08 import Sched
+    opb = eng.choice("op_b", len(PR_OPS))
+    first = eng.choice("first", 2)
+    k1 = eng.choice("preempt_first_at", 24)
+    k2c = eng.choice("preempt_second_at", 13)
+    k2 = None if k2c == 12 else k2c
+    d = scratch("c07c")
+    try:
+        os.makedirs(os.path.join(d, "refs", "tags"))
+        os.makedirs(os.path.join(d, "refs", "heads"))
+        with open(os.path.join(d, "HEAD"), "wb") as f:
+            f.write(b"ref: refs/heads/keep\n")
+        with open(os.path.join(d, "packed-refs"), "wb") as f:
+            f.write(b"# pack-refs with: peeled fully-peeled sorted \n" + SC + b" " + KEEP + b"\n" + SA + b" " + X + b"\n" + SB + b" " + Y + b"\n")
+        if x_loose:
+            with open(os.path.join(d, "refs", "tags", "x"), "wb") as f:
+                f.write(SA + b"\n")
+        la, fa, ta = PR_OPS[opa]
+        lb, fb, tb = PR_OPS[opb]
+        ca, cb = R.DiskRefsContainer(d), R.DiskRefsContainer(d)
+        ca.get_packed_refs()
+        cb.get_packed_refs()            # both start with a warm cache, as long-lived processes have
+        s = Sched(first, k1, k2)
+        torn = []
+
+        def hook(i, name, path):
+            # at every scheduling point the packed-refs file must be complete and well formed
+            try:
+                with open(os.path.join(d, "packed-refs"), "rb") as fh:
+                    data = fh.read()
+                if not data.startswith(b"# pack-refs") or not data.endswith(b"\n") or KEEP not in data:
+                    torn.append((i, name, data))
+            except FileNotFoundError:
+                torn.append((i, name, None))
+            s.hook(i, name, path)
+        with Interposer(d, hook, wrap_reads=True):
+            res = s.run([lambda: fa(ca), lambda: fb(cb)])
+        eng.assume(s.count.get(first, 0) > k1)
+        if k2 is not None:
+            eng.assume(s.count.get(1 - first, 0) > k2)
+        tag = f"[A={la} B={lb} x_loose={x_loose} first={'AB'[first]} k1={k1} k2={k2} results={res}]"
+        final = R.DiskRefsContainer(d)
+        allowed = set()
+        for (st, _), t in zip(res, (ta, tb)):
+            allowed |= t            # an operation that failed may still have been applied partially only to its own names
+        eng.prove(not torn, f"{tag} packed-refs is complete and well formed at every scheduling point: {torn[:1]}")
+        for name, val in ((KEEP, SC), (Y, SB), (X, SA)):
+            if name in allowed:
+                continue
+            try:
+                got = final[name]
+            except KeyError:
+                got = None
+            eng.prove(got == val, f"{tag} {name!r}, which neither operation names, still resolves to its value (got {got})")
+        eng.prove(not [f for dp, dn, fn in os.walk(d) for f in fn if f.endswith(".lock")], f"{tag} no lock file left behind")
+    finally:
+        shutil.rmtree(d, ignore_errors=True)
+
+
+def checks(tier):
+    q = ("quick", "thorough")
+    r = "dulwich.refs.DiskRefsContainer."
+    return _b07(tier) + [
+        KCheck("C07c.packed_refs_rewriters", h_packed_rewriters,
+               parts=[{"opa": a, "x_loose": xl} for a in range(len(PR_OPS)) for xl in (False, True)],
+               encoded=[r + "_remove_packed_ref", r + "add_packed_refs/_add_packed_refs", r + "pack_refs", r + "remove_if_equals",
+                        r + "set_if_equals", "dulwich.file._GitFile.close/abort"],
+               bounds="2 actors with warm caches on one real directory, packed-refs holding 3 refs; each runs one of 7 operations "
+                      "that rewrite or abandon a rewrite of packed-refs (every pair); <= 2 preemptions at symbolic "
+                      "file-system-call positions (reads included), either actor first; packed-refs inspected at every "
+                      "scheduling point",
+               outside="3 actors; more than 2 preemptions; power loss (C09)", time_budget=2400, tiers=q),
+    ]
